@@ -88,7 +88,7 @@ def _effect(kind, rel, nbytes=None):
         S.frozen = True
         S.crash_label = label
         if kind in ("write", "flush") and S.torn is not None and nbytes:
-            b = {"1": 1, "len-1": max(0, nbytes - 1), "half": nbytes // 2}.get(S.torn, 0)
+            b = {"1": 1, "3": 3, "len-1": max(0, nbytes - 1), "half": nbytes // 2}.get(S.torn, 0)
             return ("torn", min(b, nbytes))
         return "crash"
     return "apply"
